@@ -72,6 +72,13 @@ def run_pubsub(ctx, relevant, line_oracle=None, sat_share=1):
                         label="pubsub.saturation", line_oracle=line_oracle)
     core.diff_component(ctx, "pubsub", ["gen", "--seed", ctx.seed + 13, "--cases", 300 if quick else 6000, "--len", 60 if quick else 100, "ipc"], cl,
                         label="pubsub.ipc", line_oracle=line_oracle)
+    # publishers with `override_sample_preallocation` (1..5 chunks instead of the worst case): a loan may now be refused for lack of memory,
+    # the model says exactly when; outside `Cfg.Sane`, so the C08 memory theorems (and the out-of-memory oracle) do not apply, all others do
+    def no_oom(case, idx, base):
+        k = line_oracle(case, idx, base) if line_oracle else None
+        return None if k in ("loan-out-of-memory", "probe-ended-by-OutOfMemory") else k
+    core.diff_component(ctx, "pubsub", ["gen", "--seed", ctx.seed + 23, "--cases", 800 * sat_share if quick else 15000, "--len", 100 if quick else 160, "oom"], cl,
+                        label="pubsub.prealloc-override", line_oracle=no_oom)
     # slice payloads on a dynamically growing data segment (PowerOfTwo strategy, initial slice length 1, loan lengths that mostly grow):
     # the same model — the length is not observable in it; publishers are not dropped in this mode (lost-chunk limitation of dynamic segments)
     core.diff_component(ctx, "pubsub", ["gen", "--seed", ctx.seed + 17, "--cases", 1200 if quick else 20000, "--len", 70 if quick else 120, "slice"], cl,
